@@ -237,7 +237,9 @@ func runSess(a []string, tweak func(sr *scriptedReceiver, setup map[string]any))
 				continue
 			}
 			mark := ""
-			if isLmsg(q.body) && a[3] != "-" { // without a duration the marker can only come from the VoD source (checked against the served segment by the monitor)
+			// the marker may also come from the VoD source (a source segment that carries the lmsg brand keeps it in every
+			// loop): only a marker the session added is printed
+			if isLmsg(q.body) && a[3] != "-" && !vodSegHasLmsg(s, va, ref, q.body) {
 				mark = "L"
 			}
 			nrs = append(nrs, m[2]+mark)
@@ -251,6 +253,65 @@ func runSess(a []string, tweak func(sr *scriptedReceiver, setup map[string]any))
 	apiCall(s, "DELETE", "/api/cmaf-ingests/"+id, nil)
 	res.reqs = sr.snapshot()
 	return strings.Join(outs, " "), res
+}
+
+var vodLmsgCache = map[string]bool{}
+
+// vodSegHasLmsg: does the VoD segment this upload was made from carry the lmsg brand itself?  The source index follows
+// from the decode time (tfdt mod loop duration); the source segment is fetched from livesim2 in its first loop.
+func vodSegHasLmsg(s *app.Server, va *app.VerifAsset, ref *app.VerifRep, body []byte) bool {
+	if ref == nil || len(ref.Segments) == 0 {
+		return false
+	}
+	f, err := mp4.DecodeFileSR(bits.NewFixedSliceReader(body))
+	if err != nil || len(f.Segments) == 0 || len(f.Segments[0].Fragments) == 0 {
+		return false
+	}
+	tfdt := f.Segments[0].Fragments[0].Moof.Traf.Tfdt.BaseMediaDecodeTime()
+	n := len(ref.Segments)
+	loop := ref.Segments[n-1].EndTime - ref.Segments[0].StartTime
+	if loop == 0 {
+		return false
+	}
+	rel := tfdt%loop + ref.Segments[0].StartTime
+	idx := -1
+	for i, sg := range ref.Segments {
+		if sg.StartTime == rel {
+			idx = i
+		}
+	}
+	if idx < 0 {
+		return false
+	}
+	return vodIdxHasLmsg(s, va, ref, idx)
+}
+
+func vodIdxHasLmsg(s *app.Server, va *app.VerifAsset, ref *app.VerifRep, idx int) bool {
+	key := va.AssetPath + "|" + ref.ID + "|" + strconv.Itoa(idx)
+	if v, ok := vodLmsgCache[key]; ok {
+		return v
+	}
+	e := expectSeg(va, ref, idx, 0)
+	av, _ := availMS(e, ref.MediaTimescale, 0, 0)
+	id := strconv.Itoa(e.nr)
+	media := strings.NewReplacer("$Number$", id, "$Time$", id).Replace(ref.MediaURI)
+	gr := serveGuarded(s.LiveRouter, httptest.NewRequest("GET", fmt.Sprintf("/livesim2/%s/%s?nowMS=%d", va.AssetPath, media, av+1), nil))
+	v := gr.code == 200 && isLmsg([]byte(gr.fullBody))
+	vodLmsgCache[key] = v
+	return v
+}
+
+func assetHasSourceLmsg(s *app.Server, va *app.VerifAsset) bool {
+	ref := refRepOf(va)
+	if ref == nil {
+		return false
+	}
+	for i := range ref.Segments {
+		if vodIdxHasLmsg(s, va, ref, i) {
+			return true
+		}
+	}
+	return false
 }
 
 func isLmsg(seg []byte) bool {
@@ -295,6 +356,12 @@ func genC16(c *Ctx) {
 		dur := "-"
 		if r.Intn(2) == 0 {
 			dur = strconv.Itoa(r.Pick(0, 1, a.SegmentDurMS/1000, 2*a.SegmentDurMS/1000, 3*a.SegmentDurMS/1000+1, 10))
+		}
+		if dur != "-" && assetHasSourceLmsg(s, a) {
+			// a source segment that carries the lmsg brand itself: the marker printed by the op would be ambiguous when it
+			// is also the last one of the session; such assets run without a duration here (the monitor covers them)
+			dur = "-"
+			c.Count("session.source-lmsg-no-duration")
 		}
 		var ev strings.Builder
 		for k := r.Range(1, 7); k > 0; k-- {
